@@ -69,6 +69,10 @@ CHECKS = {
    text="Panic injected at the k-th invocation of every user callback (iterator next/len/size_hint, Clone, closures, comparison/hash/format), lying and changing length reports within +-2, and allocation failure at the k-th allocation of each constructor (complete grid, child processes); after the unwind every surviving handle is valid with an accurate count, every value is destroyed at most once, no unwritten slot is read or destroyed, only the half-built block of a panicking constructor may leak.",
    note="Trusted: Tok registry + 0xA5 fill/magic check, tracking allocator, child-process termination status. k is sampled by proptest over the full reachable range for <=6 items; the allocation-failure grid is enumerated.",
    technique="fault injection at generated crash points with an at-most-once / validity oracle (proptest + child processes)"),
+ "C13": dict(engine="probes", category="exploration", design="5 (C13)",
+   text="Generated probe programs compiled by rustc against the rlib built from /repo: complete grid of 12 handle kinds x auto-trait witnesses x {Send,Sync}, generic probes for every bound set, dyn bounds, 32 borrow/lifetime/dropck templates with legal twins, and proptest-generated nested payload types; expected accept/reject from an independent auto-trait model.",
+   note="Trusted: rustc as the executor, the hand-written auto-trait table for the std types of the grammar; default features; programs outside the grammar are not decided.",
+   technique="generated-program testing (proptest grammar over types + templates) with rustc accept/reject as the observation and an independent model as the oracle"),
 }
 NOT_YET = {
 }
@@ -108,6 +112,7 @@ m = {
    {"name": "uninit", "path": "harness/eng/src/uninit.rs", "serves_properties": ["C15"], "kind_free_text": "uninitialised-construction engine"},
    {"name": "ctor", "path": "harness/eng/src/ctor.rs", "serves_properties": ["C06"], "kind_free_text": "constructor round-trip engine"},
    {"name": "fault", "path": "harness/eng/src/ctor.rs", "serves_properties": ["C07"], "kind_free_text": "callback fault-injection engine + allocation-failure children"},
+   {"name": "probes", "path": "harness/tv/src/probes.rs", "serves_properties": ["C13"], "kind_free_text": "probe-program generator + rustc batch runner"},
    {"name": "matrix", "path": "harness/mx/src/lib.rs", "serves_properties": ["C05", "C11", "C12"], "kind_free_text": "static shape matrix engine with an allocator-level observed oracle"},
    {"name": "hist", "path": "harness/hist/src/hist_sized.rs", "serves_properties": ["C01", "C03", "C04", "C08", "C09"], "kind_free_text": "model-based history engine (proptest-generated op sequences, reference model, tracking allocator, identity-tracked payloads)"},
  ],
